@@ -101,17 +101,18 @@ func (a *Act) exec(instr ssa.Instruction, st *State, reach string, b *ssa.BasicB
 	switch in := instr.(type) {
 	case *ssa.DebugRef:
 		if id, ok := in.Expr.(*ast.Ident); ok && !in.IsAddr {
-			if _, isVar := in.Object().(*types.Var); isVar {
+			if ov, isVar := in.Object().(*types.Var); isVar && !(ov.Pkg() != nil && ov.Parent() == ov.Pkg().Scope()) {
+				// (package-level variables are resolved through their cells, not through a load on some path)
 				if _, bound := a.env[in.X]; bound || isConstLike(in.X) {
 					a.dbg[id.Name] = in.X
 				}
 			}
 		}
 	case *ssa.MakeMap:
-		ref := a.alloc(st, a.nm(in.Name()), allocType{key: "obj:" + in.Type().Underlying().String(), typ: in.Type().Underlying()})
+		ref := a.alloc(st, a.nm(in.Name()), objKey(in.Type()))
 		a.bind(in, ref)
 	case *ssa.MakeChan:
-		ref := a.alloc(st, a.nm(in.Name()), allocType{key: "obj:" + in.Type().Underlying().String(), typ: in.Type().Underlying()})
+		ref := a.alloc(st, a.nm(in.Name()), objKey(in.Type()))
 		a.bind(in, ref)
 	case *ssa.MapUpdate:
 		m := a.val(in.Map)
@@ -173,6 +174,13 @@ func (a *Act) exec(instr ssa.Instruction, st *State, reach string, b *ssa.BasicB
 			panic(fmt.Sprintf("extract from unknown tuple %s in %s", in.Tuple.Name(), a.fn))
 		}
 		a.bind(in, tup[in.Index])
+		// identities attached to the tuple component follow it (closures, contracted function results)
+		if ci := g.closures[tup[in.Index]]; ci != nil {
+			g.closures[a.env[in]] = ci
+		}
+		if fr := g.fnResults[tup[in.Index]]; fr != nil {
+			g.fnResults[a.env[in]] = fr
+		}
 	case *ssa.Field:
 		s := g.sortOf(in.X.Type())
 		a.bind(in, fmt.Sprintf("(%s_f%d %s)", s, in.Field, a.val(in.X)))
@@ -923,7 +931,7 @@ func (g *Gen) heapValWF(t types.Type, v string, st *State) string {
 		return fmt.Sprintf("(and (< (pref %s) %s) (=> (= (pref %s) 0) (= (poff %s) 0)) (=> (> (pref %s) 0) (%s (rtype (pref %s)))))", v, st.Next, v, v, v, g.typePred("pt", u.Elem()), v)
 	case *types.Map, *types.Chan:
 		// a map/channel object contains nothing else: its allocation type is exactly the map/channel type
-		return fmt.Sprintf("(and (>= %s 0) (< %s %s) (=> (not (= %s 0)) (= (rtype %s) %d)))", v, v, st.Next, v, v, g.allocTag(allocType{key: "obj:" + u.String(), typ: u}))
+		return fmt.Sprintf("(and (>= %s 0) (< %s %s) (=> (not (= %s 0)) (= (rtype %s) %d)))", v, v, st.Next, v, v, g.allocTag(objKey(u)))
 	case *types.Signature:
 		if g.eng.curModes.NonNilParams {
 			return fmt.Sprintf("(not (= %s nilIface))", v)
